@@ -5,6 +5,10 @@ use rustfmt_nightly::verif_hooks as hooks;
 use serde_json::{json, Value};
 use std::io::{self, BufRead, Write};
 
+thread_local! {
+    static LAST_PANIC: std::cell::RefCell<String> = std::cell::RefCell::new(String::new());
+}
+
 mod c03;
 mod c04;
 mod c07;
@@ -14,6 +18,7 @@ mod c10;
 mod c11;
 mod c12;
 mod c15;
+mod c16;
 mod c17;
 mod fmt;
 mod pool;
@@ -39,12 +44,18 @@ fn main() {
         "pool" => pool::run,
         "lex" => pool::run_lex,
         "nodes" => pool::run_nodes,
+        "c16" => c16::run,
         "c17" => c17::run,
         _ => {
             eprintln!("unknown subcommand {sub}");
             std::process::exit(2);
         }
     };
+    // remember where the last panic happened (file:line of the innermost frame that reports a location)
+    std::panic::set_hook(Box::new(|info| {
+        let loc = info.location().map(|l| format!("{}:{}", l.file(), l.line())).unwrap_or_default();
+        LAST_PANIC.with(|c| *c.borrow_mut() = loc);
+    }));
     let stdin = io::stdin();
     // results go to the fd named by VH_OUT_FD if set (so that anything rustfmt itself
     // prints to stdout cannot corrupt the protocol), else to stdout
@@ -70,7 +81,8 @@ fn main() {
                 } else {
                     "?".to_string()
                 };
-                json!({"panic": msg})
+                let at = LAST_PANIC.with(|c| c.borrow().clone());
+                json!({"panic": msg, "at": at})
             }
         };
         writeln!(out, "{}", r).unwrap();
